@@ -110,7 +110,7 @@ class Harnessed(object):
     """A real parser with the environment of an observation installed: variables, custom functions
     (by mode) and recording listeners that replay the setter values of the environment."""
 
-    def __init__(self, lib, env, parser=None, debug=False):
+    def __init__(self, lib, env, parser=None, debug=False, wrap=None):
         self.lib = lib
         self.env = env
         self.p = parser or lib.Parser(debug=debug)
@@ -120,7 +120,7 @@ class Harnessed(object):
         self.xlerror = xlerror
         p = self.p
         for name, v in env['vars'].items():
-            p.set_variable(name, dec(v))
+            p.set_variable(name, wrap(dec(v)) if wrap else dec(v))
         for name, c in env['funcs'].items():
             p.set_function(name, self.custom(name, c))
         p.on('callCellValue', self.on_cell)
